@@ -15,6 +15,7 @@ use std::time::Instant;
 pub enum Job {
     A(crate::wa_plan::PlanA),
     B(crate::wb_plan::PlanB),
+    C(crate::wc::PlanC),
 }
 
 impl Job {
@@ -22,17 +23,20 @@ impl Job {
         match self {
             Job::A(p) => p.seed,
             Job::B(p) => p.seed,
+            Job::C(p) => p.seed,
         }
     }
     pub fn run(&self, trace: bool) -> RunResult {
         match self {
             Job::A(p) => crate::wa_exec::run_plan(p, &crate::wa_exec::ExecOpts { trace, only: None }),
             Job::B(p) => crate::wb_exec::run_plan(p, &crate::wb_exec::ExecB { trace }),
+            Job::C(p) => crate::wc::run_plan(p, trace),
         }
     }
     pub fn size(&self) -> usize {
         match self {
             Job::A(p) => p.steps.len() * 4 + p.clients.len() + p.configs.len(),
+            Job::C(p) => p.steps.len() * 4 + p.ra_config.len() / 50,
             Job::B(p) => p.queries.len() * 4 + p.routes.len() + p.upstreams.len() + (p.yield_p > 0.0) as usize + (p.spurious_p > 0.0) as usize + (p.eintr_p > 0.0) as usize + (p.out_loss_p > 0.0) as usize + (p.out_dup_p > 0.0) as usize + (p.out_delay_p > 0.0) as usize,
         }
     }
@@ -78,6 +82,26 @@ impl Job {
                             out.push(Job::A(q));
                         }
                     }
+                }
+            }
+            Job::C(p) => {
+                let n = p.steps.len();
+                let mut chunk = n / 2;
+                while chunk >= 1 {
+                    let mut start = 0;
+                    while start < n {
+                        let mut q = p.clone();
+                        let end = (start + chunk).min(n);
+                        q.steps.drain(start..end);
+                        out.push(Job::C(q));
+                        start += chunk;
+                    }
+                    chunk /= 2;
+                }
+                if !p.ra_config.is_empty() {
+                    let mut q = p.clone();
+                    q.ra_config.clear();
+                    out.push(Job::C(q));
                 }
             }
             Job::B(p) => {
